@@ -367,17 +367,23 @@ func (t *FatTeddy) FindMatch(haystack []byte, start int) (int, int) {
 
 	// Process candidates
 	for pos != -1 {
-		// Iterate through all set bits in bucket mask
+		// Iterate through all set bits in bucket mask. Several literals can match
+		// at this position (in different buckets): the earliest alternative wins.
+		bestID := -1
 		for bucketMask != 0 {
 			bucket := bits.TrailingZeros16(bucketMask)
 			bucketMask &^= 1 << bucket
 
 			matchPos, patternID := t.verifyBucket(haystack[accumulatedOffset:], pos, bucket)
-			if matchPos != -1 && patternID >= 0 && patternID < len(t.patterns) {
-				matchStart := start + accumulatedOffset + matchPos
-				matchEnd := matchStart + len(t.patterns[patternID])
-				return matchStart, matchEnd
+			if matchPos != -1 && patternID >= 0 && patternID < len(t.patterns) &&
+				(bestID == -1 || patternID < bestID) {
+				bestID = patternID
 			}
+		}
+		if bestID != -1 {
+			matchStart := start + accumulatedOffset + pos
+			matchEnd := matchStart + len(t.patterns[bestID])
+			return matchStart, matchEnd
 		}
 
 		nextSearchStart := accumulatedOffset + pos + 1
